@@ -47,6 +47,42 @@ fn call_programs(target: &str, args: &[&str]) -> Vec<String> {
     out
 }
 
+const TWO_HOLE_CONTEXTS: &[&str] = &[
+    "@1\n@2\nreturn 1",
+    "return @1, @2",
+    "E1(@1, @2)",
+    "local v, w = @1, @2\nreturn v, w",
+    "return {@1, @2}",
+    "if @1 then return @2 end\nreturn 0",
+    "return @1 and @2",
+    "return @1 or @2",
+    "local v = @1\nlocal w = @2\nreturn v, w",
+];
+
+/// thorough: two target calls in one program, and target calls nested in the arguments of target calls
+fn combined_programs(target: &str, other: &str, args: &[&str]) -> Vec<String> {
+    let mut out = Vec::new();
+    for a in args {
+        for b in args {
+            let c1 = format!("{}({})", target, a);
+            let c2 = format!("{}({})", other, b);
+            for c in TWO_HOLE_CONTEXTS {
+                out.push(prog(&c.replace("@1", &c1).replace("@2", &c2)));
+            }
+            // nested: the inner call is the first, a middle and the last argument
+            let inner = c2;
+            for outer_args in [format!("{}", inner), format!("{}, \"m\"", inner), format!("x, {}", inner), format!("EI(1), {}, EI(2)", inner)] {
+                let call = format!("{}({})", target, outer_args);
+                for c in ["@\nreturn 1", "return @", "local v, w = @\nreturn v, w", "E1(@, 2)", "return {@}"] {
+                    out.push(prog(&c.replace('@', &call)));
+                }
+            }
+            let _ = a;
+        }
+    }
+    out
+}
+
 fn shadow_programs(name: &str, call: &str) -> Vec<String> {
     // `name` is the identifier being shadowed (assert / debug / select / _G / G), `call` a use of the target
     let use_stat = format!("E1({})", call);
@@ -142,7 +178,7 @@ fn mk(seeds: Vec<String>, family: &'static str) -> Vec<Seed> {
 pub fn run(tier: Tier) -> Report {
     let mut report = Report::new("C17", "model_checking", tier);
     report.rule = "per rule: seeds = calls of the targeted function with 0-3 arguments (pure, effectful, multi-valued, vararg) in statement \
-        and 17 expression contexts, and 13 shadowing shapes (local, parameter, numeric/generic loop variable, local function, nested block, \
+        and 17 expression contexts, pairs of target calls in 9 two-hole contexts and target calls nested as first / middle / last argument of a target call, and 13 shadowing shapes (local, parameter, numeric/generic loop variable, local function, nested block, \
         declared later, captured, field, method) for assert/debug/select/_G/the injected name; inject_global_value for 8 values of every JSON kind \
         and read forms G, _G.G, _G[\"G\"], G.f, #G, G.. ; BFS of the single-rule graph to closure (idempotence); oracle: observe(output, normal \
         environment where the targets are logging externals) == observe(input, environment where assert returns its arguments / profiling \
@@ -159,6 +195,10 @@ pub fn run(tier: Tier) -> Report {
     assert_seeds.extend(mk(shadow_programs("assert", "assert(x, \"m\")"), "assert shadowing"));
     assert_seeds.extend(mk(shadow_programs("select", "assert(x, \"m\")"), "select shadowing"));
     assert_seeds.extend(mk(shadow_programs("select", "select(1, assert(x, \"m\"))"), "select shadowing"));
+    {
+        let small: &[&str] = &["", "x", "E1()", "x, \"msg\"", "EF(), E1()", "...", "t.k, EI(2)"];
+        assert_seeds.extend(mk(combined_programs("assert", "assert", small), "two assert calls"));
+    }
     specs.push(Spec {
         property: "C17",
         seeds: assert_seeds,
@@ -191,6 +231,12 @@ pub fn run(tier: Tier) -> Report {
     for target in ["debug.profilebegin", "debug.profileend"] {
         let mut seeds = mk(call_programs(target, ARGS), "profiling calls");
         seeds.extend(mk(shadow_programs("debug", &format!("{}(\"label\")", target)), "debug shadowing"));
+        {
+            let small: &[&str] = &["", "\"label\"", "E1()", "EI(1), EI(2)", "..."];
+            let other = if target == "debug.profilebegin" { "debug.profileend" } else { "debug.profilebegin" };
+            seeds.extend(mk(combined_programs(target, other, small), "two profiling calls"));
+            seeds.extend(mk(combined_programs(target, target, small), "two profiling calls"));
+        }
         specs.push(Spec {
             property: "C17",
             seeds,
